@@ -1,0 +1,24 @@
+//! Verification hooks, compiled in only with the cargo feature `verif`.
+//!
+//! The write paths call [`point`] at named places. A test harness installs a hook with
+//! [`set_hook`]; the hook may record the name (trace), block (to force a thread schedule) or
+//! end the process (to emulate a crash at that instant). Without a hook `point` does nothing.
+
+use std::sync::RwLock;
+
+/// The type of an installed hook
+pub type Hook = Box<dyn Fn(&'static str) + Send + Sync>;
+
+static HOOK: RwLock<Option<Hook>> = RwLock::new(None);
+
+/// Install (or with `None`, remove) the process-wide hook
+pub fn set_hook(hook: Option<Hook>) {
+    *HOOK.write().unwrap() = hook;
+}
+
+/// A named point in a write path
+pub fn point(name: &'static str) {
+    if let Some(hook) = HOOK.read().unwrap().as_ref() {
+        hook(name);
+    }
+}
